@@ -15,6 +15,12 @@ pub const HARNESSES: &[(&str, fn())] = &[
     ("c19_values_bool_float", c19_values_bool_float),
     ("c19_program", c19_program),
     ("c19_inputs", c19_inputs),
+    #[cfg(unhindered_ec_verif)]
+    ("c19_alt_sizes", c19_alt_sizes),
+    #[cfg(unhindered_ec_verif)]
+    ("c19_alt_values", c19_alt_values),
+    #[cfg(unhindered_ec_verif)]
+    ("c19_alt_flags", c19_alt_flags),
 ];
 
 #[cfg(kani)]
@@ -176,4 +182,92 @@ pub fn c19_inputs() {
 #[kani::stub(std::hash::RandomState::new, rs_stub)]
 fn p_c19_inputs() {
     c19_inputs()
+}
+
+// ------------------------------------------------------------------------------------- a second generated state type
+// `AltState` is the hook struct compiled under `--cfg unhindered_ec_verif` (packages/push/src/push_vm/verif_state.rs):
+// stacks declared in another order, exec field named `work`, the bool / int stacks renamed `flags` / `counters` in the
+// builder.  The same guarantees hold for it.
+#[cfg(unhindered_ec_verif)]
+pub fn c19_alt_sizes() {
+    use push::push_vm::verif_state::AltState;
+    let (g, fl, ct, steps) = (any_usize(), any_usize(), any_usize(), any_usize());
+    let which = any_u8() % 3;
+    let bld = AltState::builder().with_max_stack_size(g);
+    let state = match which {
+        0 => bld.with_no_program().with_instruction_step_limit(steps).build(),
+        1 => bld.with_flags_max_size(fl).with_no_program().with_instruction_step_limit(steps).build(),
+        _ => bld.with_instruction_step_limit(steps).with_counters_max_size(ct).with_flags_max_size(fl).with_no_program().build(),
+    };
+    let expect = match which {
+        0 => (g, g, g, g),
+        1 => (g, g, g, fl),
+        _ => (g, ct, g, fl),
+    };
+    let got = (state.work.max_stack_size(), state.int.max_stack_size(), state.float.max_stack_size(), state.bool.max_stack_size());
+    check!(got == expect, "second state type: each stack has the maximum size last set for it (globally or individually)");
+    check!(state.steps == steps, "second state type: the step limit is the one configured");
+    check!(std::ptr::eq(state.stack::<bool>(), &state.bool) && std::ptr::eq(state.stack::<i64>(), &state.int)
+        && std::ptr::eq(state.stack::<OrderedFloat<f64>>(), &state.float) && std::ptr::eq(state.stack::<PushProgram>(), &state.work),
+        "second state type: the generated accessors address the field declared for that element type");
+    cover!(which == 2, "individual overrides reachable");
+    std::mem::forget(state);
+}
+#[cfg(all(kani, unhindered_ec_verif))]
+#[kani::proof]
+#[kani::unwind(4)]
+#[kani::stub(std::hash::RandomState::new, rs_stub)]
+fn p_c19_alt_sizes() {
+    c19_alt_sizes()
+}
+
+#[cfg(unhindered_ec_verif)]
+pub fn c19_alt_values() {
+    use push::push_vm::verif_state::AltState;
+    let cap = any_upto(3);
+    let (a, b, c) = (any_i64(), any_i64(), any_i64());
+    match AltState::builder().with_max_stack_size(cap).with_no_program().with_counters_values([a, b, c]) {
+        Err(e) => {
+            check!(cap < 3 && matches!(e, StackError::Overflow { .. }), "second state type: supplying more values than the maximum is reported as an overflow");
+            std::mem::forget(e);
+        }
+        Ok(bld) => {
+            check!(cap >= 3, "second state type: supplying more values than the maximum is reported as an overflow");
+            let state = bld.with_instruction_step_limit(1).build();
+            check!(state.int.size() == 3 && state.int.top3().ok() == Some((&a, &b, &c)), "second state type: the renamed int stack holds the supplied values, first supplied on top");
+            check!(state.float.size() == 0 && state.work.size() == 0 && state.bool.size() == 0, "second state type: the other stacks are untouched");
+            cover!(true, "values loaded");
+            std::mem::forget(state);
+        }
+    }
+    cover!(cap < 3, "overflow reachable");
+}
+#[cfg(all(kani, unhindered_ec_verif))]
+#[kani::proof]
+#[kani::unwind(6)]
+#[kani::stub(std::hash::RandomState::new, rs_stub)]
+fn p_c19_alt_values() {
+    c19_alt_values()
+}
+
+#[cfg(unhindered_ec_verif)]
+pub fn c19_alt_flags() {
+    use push::push_vm::verif_state::AltState;
+    let (p, q) = (any_bool(), any_bool());
+    let Ok(bld) = AltState::builder().with_max_stack_size(2).with_no_program().with_instruction_step_limit(1).with_flags_values([p, q]) else {
+        check!(false, "second state type: two values fit a maximum of two");
+        return;
+    };
+    let state = bld.build();
+    check!(state.bool.size() == 2 && state.bool.top2().ok() == Some((&p, &q)), "second state type: the renamed bool stack holds the supplied values, first supplied on top");
+    check!(state.float.size() == 0 && state.work.size() == 0 && state.int.size() == 0, "second state type: the other stacks are untouched");
+    cover!(true, "values loaded");
+    std::mem::forget(state);
+}
+#[cfg(all(kani, unhindered_ec_verif))]
+#[kani::proof]
+#[kani::unwind(6)]
+#[kani::stub(std::hash::RandomState::new, rs_stub)]
+fn p_c19_alt_flags() {
+    c19_alt_flags()
 }
